@@ -447,6 +447,8 @@ def monitor(sc, views):
                 exp = "missed"
             elif kind in ("leave", "disc", "unsub") and party:
                 exp = "disconnected"
+            elif kind == "unsub" and any(x and sess.get(x) == su for x in (pc["orig"], pc["callee"])):
+                exp = "disconnected"      # the unsubscription detaches every session of the user, a party's among them
             else:
                 fail("call-ended-by-unexpected-step", k, "call %d ended by %s %s" % (q, kind, args))
             ends = [m for m in v.msgs if m["replace"] == ":%d" % q and m["webrtc"] in END_STATES]
@@ -710,6 +712,8 @@ def run(ctx):
             if io[k].loaded:
                 patt = io[k].att
     searched = 0
+    known = set(f["key"] for f in ctx.load_findings() if f["property"] == ctx.pid)
+    fails = [f for f in fails if f[1] not in known]     # known findings do not excuse a correspondence mismatch
     if mism and not fails:
         sc, k, d = min(mism, key=lambda x: x[1] if x[1] >= 0 else 10 ** 6)
         base = sc.clone(sc.ops[:k + 1]) if k >= 0 else sc
@@ -761,7 +765,8 @@ def run(ctx):
         "rule": "corpus of 5 hand-written call histories + seeded model-guided random histories over one p2p topic: 3 users (two participants + a third user naming the topic by its p2p name), 7 connections, calls configured in ~92% of the histories; ops attach/attach-me/leave/unsubscribe/disconnect/invite(head.webrtc started|other)/pub/call event (7 kinds, seq right 78% else cur-1|cur+1|lastid|lastid+1|previous call|0|-1, from party, callee-user, originator-user, third-user and unattached sessions)/timeout/W-permission change (own want, other's given), 8-28 ops after the skeleton; non-trivial = at least one acceptance or ending published; distinct by (ops, frames)",
         "operations_executed": nops,
         "samples": [{"head": sc.head, "ops": sc.ops} for sc in scns[5:7]],
-        "traces_validated_against_impl": len(scns), "correspondence_mismatches": len(mism), "monitor_failures": len(fails),
+        "traces_validated_against_impl": len(scns), "correspondence_mismatches": len(mism), "monitor_failures_not_known": len(fails),
+        "monitor_failures_by_law": {l: len(v) for l, v in seen.items()},
         "search_pool": searched,
         "input_distribution": {"op_kinds": kinds, "ctrl_codes": codes, "published_call_states": endings, "events_taken_or_ignored": events,
                                "ops_per_scenario_max": max(len(sc.ops) for sc in scns)},
